@@ -231,7 +231,8 @@ class Universe:
         cand = [i for i in count if i >= inf.first_ino and inf.inodes.get(i, {}).get("isdir")]
         if not cand:
             return None
-        ino = max(cand, key=lambda i: (count[i], -i))
+        # (lost+found is pre-allocated with many empty blocks: it is not the interesting one to wipe)
+        ino = max([i for i in cand if i != inf.first_ino] or cand, key=lambda i: (count[i], -i))
         if k >= 2 * len(self.names):
             # cross-claim: a regular file with a higher inode number maps the first block of a
             # multi-block directory as its own first block (passes 1B-1D have to clone it; with
